@@ -71,7 +71,8 @@ def tag_docs(rng, tag, n):
     pool = gen.text_pool('hostile')
     out = []
     for k in range(n):
-        variant = ['empty', 'minimal', 'rich', 'nested-message-names', 'body-first', 'extra-envelope', 'attrs'][k % 7]
+        variant = ['empty', 'minimal', 'rich', 'nested-message-names', 'body-first', 'extra-envelope', 'attrs',
+                   'foreign-ns-message-name', 'root-default-ns', 'doctype', 'noise'][k % 11]
         m = E(tag)
         if tag == 'roElementAction':
             m.set('operation', 'DELETE')
@@ -91,7 +92,20 @@ def tag_docs(rng, tag, n):
             env['extra'] = [gen.rich_blob(rng, 2, pool, 'mosExtra'), E('ncsItem', 'x')]
         if variant == 'attrs':
             env['root_attrib'] = {'version': '2.8', 'x': rng.choice(pool)}
-        out.append((variant, B.to_text(B.envelope(7, m, **env), pretty=rng.random() < 0.5)))
+        if variant == 'foreign-ns-message-name':
+            # an element of another namespace whose LOCAL name is a message tag, next to the real one
+            other = rng.choice([t for t in MESSAGE_TAGS if t != tag])
+            env['extra'] = [E('{urn:vendor:ext}' + other, None, E('roID', 'RO'))]
+            env['body_first'] = rng.random() < 0.5
+        doc = B.to_text(B.envelope(7, m, **env), pretty=rng.random() < 0.5)
+        if variant == 'root-default-ns':
+            doc = doc.replace('<mos', '<mos xmlns="urn:not:mos"', 1)      # every element is in a foreign namespace
+        if variant == 'doctype':
+            doc = rng.choice(['<!DOCTYPE mos>\n', '<!DOCTYPE mos SYSTEM "mos.dtd">\n',
+                              '<!DOCTYPE mos [<!ENTITY e "x">]>\n']) + doc
+        if variant == 'noise':
+            doc = gen.xml_noise(rng, doc, p=1.0)
+        out.append((variant, doc))
     return out
 
 
@@ -193,7 +207,7 @@ def run(s):
     tmpdir = tempfile.mkdtemp(prefix='verif-c08-')
     try:
         idx = 0
-        per_tag = 7 if q else 420
+        per_tag = 11 if q else 440
         for tag in MESSAGE_TAGS:
             rng = s.rng('tag', tag)
             for variant, doc in tag_docs(rng, tag, per_tag):
